@@ -72,10 +72,11 @@ ReadMsg(id, m) ==
 
 DoRead(id) ==
   /\ Can
-  /\ \E kind \in {"genuine", "stale", "garbage"} :
+  /\ \E kind \in {"genuine", "stale", "garbage", "toolong"} :
        LET m == CASE kind = "genuine" -> wire[id]
                   [] kind = "stale"   -> prev[id]
-                  [] kind = "garbage" -> <<Lit("junk", 40)>> IN
+                  [] kind = "garbage" -> <<Lit("junk", 40)>>
+                  [] kind = "toolong" -> <<Lit("junk", MAXMSG + 1)>> IN
        /\ (kind = "genuine" => wire[id] # <<>>)
        /\ (kind = "stale" => prev[id] # <<>>)
        /\ ReadMsg(id, m)
